@@ -83,14 +83,17 @@ def reg(pid, level, rules, explanation):
 
 
 reg("C01", "other",
-    [T.t_bij, P.t_prop3, L.l_eq, B.l_cover, P.l_propdec, D.h_dispatch3, T.t_varint_readers, PL.s_persist, PL.h_total],
+    [T.t_bij, P.t_prop3, L.l_eq, B.l_cover, P.l_propdec, D.h_dispatch3, T.t_varint_readers, PL.s_persist, PL.h_total,
+     B.t_bits, C.h_payfmt, L.t_ctl, P3.h_shortform],
     "NOT decided: equality of the decoded value with the original over the unbounded value space (a runtime quantity). "
     "Decided: structural necessary conditions of a round trip, each exact for what it compares: T-bij (every wire-code enum's "
     "`as u8` discriminant table and its from_u8 table are inverse bijections), T-prop3 (decode / encode / encode_len of every v5 "
     "property set handle the same ids wired to the same field), L-eq (encode writes what encode_len declares, for every field "
     "combination), L-cover (every length-bearing field is written, conditional only on itself), L-propdec (bytes read per "
     "property == accounted == encode_len term), H-dispatch3 (the three front-ends run the same body decoders), T-varint2/"
-    "S-persist/H-total (the poll front-end decodes the same header and reports 1+len-of-len+remaining).")
+    "S-persist/H-total (the poll front-end decodes the same header and reports 1+len-of-len+remaining); T-bits / T-ctl (flag bytes "
+    "and control bytes written by the encoders are the ones the decoders read back, over their complete domains); H-payfmt (the payload "
+    "check rejects only flag=Some(true) with invalid UTF-8); H-shortform (the v5 short forms the encoder emits are the ones the decoders accept).")
 
 reg("C02", "other",
     [L.l_eq, L.l_hdr, L.l_fixed, L.s_dbg, PN.s_panic_encode, T.t_width, T.t_varint_writer],
@@ -114,7 +117,7 @@ reg("C03", "other",
 
 reg("C04", "other",
     [T.t_codes, T.t_hdr, P.t_props, P.h_proplen, P.h_dup, P.h_bytevals, P.l_propdec, PL.h_exactfill, B.t_bits, B.h_checked_sub,
-     B.l_consume, C.h_ctor, C.h_utf8, T.t_varint_readers],
+     B.l_consume, C.h_ctor, C.h_utf8, T.t_varint_readers, P3.h_shortform],
     "NOT decided: language equality between the strict decoder's accepted set and the MQTT grammar, nor the conjunction of the "
     "clauses below into it. Decided exactly against independent OASIS tables (spec_mqtt.py): header nibble/flag table, accepted "
     "domain of every code table, permitted property set per packet and its rejecting default arm, duplicate rejection before "
@@ -152,7 +155,7 @@ reg("C07", "other",
     "strict prefix of a valid encoding (follows from read-before-use but is not derived).")
 
 reg("C08", "other",
-    [PL.h_total, PL.h_cap, B.l_consume, P.l_propdec, P.h_proplen, T.t_width, T.t_varint_readers, PL.s_persist],
+    [PL.h_total, PL.h_cap, B.l_consume, P.l_propdec, P.h_proplen, T.t_width, T.t_varint_readers, PL.s_persist, P3.h_shortform],
     "NOT decided: equality of a decoded sequence with a generated one over all histories. Decided: the per-packet consumption "
     "invariant from which framing follows by induction: the poll decoder reads 1 + (1 + var_idx) header bytes and exactly "
     "remaining_len body bytes and reports their sum (H-total, H-cap, S-persist, T-varint2); every accounting body decoder consumes "
@@ -179,7 +182,7 @@ reg("C10", "other",
     "summaries).")
 
 reg("C11", "other",
-    [L.l_eq, B.l_cover, T.t_bij, PN.s_panic_encode, T.t_width, C.h_ctor, P.l_propdec, P.h_proplen],
+    [L.l_eq, B.l_cover, T.t_bij, PN.s_panic_encode, T.t_width, C.h_ctor, P.l_propdec, P.h_proplen, B.t_bits, L.t_ctl, P3.h_shortform],
     "NOT decided: the runtime round trip over accepted byte strings. Decided (necessary): the encoder is length-exact on every "
     "value a decoder can construct, not only canonical ones (L-eq quantifies over all atom assignments); every length-bearing "
     "field is written whenever present, depending only on itself (L-cover); every enum value a from_u8 table returns is written "
@@ -213,7 +216,7 @@ reg("C14", "other",
     "are used (S-readers, S-writers); the async encoders compute the full encoding before touching the sink (H-async1).")
 
 reg("C15", "other",
-    [T.t_width, T.t_varint_writer, T.t_varint_readers, C.h_ctor],
+    [T.t_width, T.t_varint_writer, T.t_varint_readers, C.h_ctor, PL.h_total],
     "The width helpers touch their argument only through comparisons with constants, so T-width decides their laws for all 2^28 "
     "values from the extracted piecewise tables (var_int_len, total_len, header_len, remaining_len, VarByteInt bound, cross law). "
     "T-varint2 decides that the standalone reader and the poll header state machine have the same (mask, step, continuation, "
@@ -237,7 +240,7 @@ reg("C18", "proof",
 
 reg("C20", "other",
     [RA.h_raise, RA.h_order, P.t_props, P.h_proplen, P.h_dup, P.h_bytevals, D.h_dispatch3, PL.h_exactfill, D.h_block,
-     IO.h_noswallow, T.t_codes, B.h_checked_sub],
+     IO.h_noswallow, T.t_codes, B.h_checked_sub, B.t_bits],
     "NOT decided: that a given byte-level malformation of a given packet reaches the site the catalogue names (path feasibility "
     "over inputs). Decided: every raise site carries the value its guard tested (H-raise payload rule), each documented variant is "
     "raised only where the catalogue places it and the mandatory sites exist (placement, floors), unknown reason bytes become "
